@@ -468,3 +468,68 @@ func hasNameCall(v ssa.Value) bool {
 	walk(v, 0)
 	return found
 }
+
+// runUnmarshalDiscipline: side obligation of lemma L-req and of the directory source's skip-on-error protocol:
+// realtime bytes are decoded only by proto.Unmarshal (which rejects messages that miss required fields), and a
+// decoding error makes ParseRealtime return an error.
+func runUnmarshalDiscipline(c *Ctx) {
+	p := c.P
+	pr := c.anchor("gtfs:ParseRealtime")
+	var other []string
+	var unmarshal *ssa.Call
+	for _, fn := range p.ModFns {
+		pk := fnPkgPath(fn)
+		if isProtoPkg(pk) || strings.Contains(pk, "/internal/") {
+			continue
+		}
+		for _, b := range fn.Blocks {
+			for _, in := range b.Instrs {
+				switch x := in.(type) {
+				case *ssa.Call:
+					name := calleeName(x)
+					if name == "google.golang.org/protobuf/proto.Unmarshal" {
+						if fn == pr {
+							unmarshal = x
+						}
+						continue
+					}
+					if strings.Contains(name, "UnmarshalOptions") || strings.Contains(name, "prototext.") || strings.Contains(name, "protojson.") || strings.HasSuffix(name, ".UnmarshalMerge") {
+						other = append(other, shortName(fn)+" calls "+trimMod(name)+" at "+p.ipos(x))
+					}
+				case *ssa.Store:
+					if fa, ok := x.Addr.(*ssa.FieldAddr); ok && strings.HasSuffix(typeName(fa.X.Type()), "UnmarshalOptions") {
+						other = append(other, shortName(fn)+" configures proto.UnmarshalOptision."+fieldName(fa.X.Type(), fa.Field)+" at "+p.ipos(x))
+					}
+				}
+			}
+		}
+	}
+	c.Check(len(other) == 0, "UNMARSHAL", "module", "feeds are decoded only by proto.Unmarshal", "-", "no UnmarshalOptions / AllowPartial / text or JSON decoding: messages missing required fields are rejected", "messages can be decoded leniently ("+strings.Join(other, "; ")+"): required fields may be nil (lemma L-req) and files that do not parse as GTFS-realtime are no longer skipped")
+	if pr == nil {
+		return
+	}
+	ok := false
+	if unmarshal != nil {
+		// the error is tested and its non-nil edge returns (nil, non-nil error)
+		for _, r := range *unmarshal.Referrers() {
+			bo, isBo := r.(*ssa.BinOp)
+			if !isBo || !isNilConst(bo.Y) {
+				continue
+			}
+			for _, r2 := range *bo.Referrers() {
+				iff, isIf := r2.(*ssa.If)
+				if !isIf {
+					continue
+				}
+				errBlock := iff.Block().Succs[0]
+				if bo.Op == token.EQL {
+					errBlock = iff.Block().Succs[1]
+				}
+				if ret, isRet := errBlock.Instrs[len(errBlock.Instrs)-1].(*ssa.Return); isRet && isNilConst(ret.Results[0]) && !isNilConst(ret.Results[1]) {
+					ok = true
+				}
+			}
+		}
+	}
+	c.Check(ok, "UNMARSHAL", shortName(pr), "a message that does not decode is an error", p.pos(pr.Pos()), "proto.Unmarshal's error leads to `return nil, err`", "ParseRealtime does not report a decoding failure as an error: corrupt files would be journaled as empty feeds")
+}
